@@ -132,12 +132,21 @@ func cacheMain(s *simrt.Sim, info *harness.RunInfo) {
 			return strings.Clone(c.Path()) + "|v=" + strings.Clone(c.Query("v"))
 		}
 	}
+	storeFaults := useSim && s.Chance(200)
+	info.Faults = storeFaults
 	var sim *harness.SimStorage
 	if useSim {
 		sim = harness.NewSimStorage(s, "cache-store")
 		sim.KeyOracle = "C14.storage-key-aliases-request-buffer"
 		cfg.Storage = sim
-		// a storage behind a wire: some calls take time (no errors: the middleware ignores them by design)
+		// fault stratum: some Set / Get calls fail. The middleware ignores storage errors by design, so a
+		// response may then be lost or half-stored; what is still demanded is that the bytes held never
+		// exceed MaxBytes, that nothing panics and that every request is answered
+		if storeFaults {
+			sim.FailSet = simrt.PickS(s, 100, 250, 0)
+			sim.FailGet = simrt.PickS(s, 0, 100)
+		}
+		// a storage behind a wire: some calls take time
 		if s.Chance(350) {
 			sim.DelayPermille = simrt.PickS(s, 100, 300, 600)
 			sim.Delays = []time.Duration{time.Millisecond, 300 * time.Millisecond, 700 * time.Millisecond, 1100 * time.Millisecond}
@@ -316,6 +325,17 @@ func cacheMain(s *simrt.Sim, info *harness.RunInfo) {
 	join(&wg)
 	s.SetPreempt(0)
 	if s.Failed() {
+		return
+	}
+
+	if storeFaults {
+		for _, r := range ops {
+			if r.ret == 0 {
+				s.Fail("C14.progress", "op%d never returned", r.id)
+			}
+		}
+		info.StateHash = newHasher().str(cfgLine).str("store-faults").h
+		info.Sample = map[string]any{"config": cfgLine + " store-faults"}
 		return
 	}
 
